@@ -85,7 +85,7 @@ def showMsgs (ms : List Msg) : String := showList (ms.map showMsg)
 def simFull (s : SimF) : List String :=
   let procs := s.nodes.flatMap fun (n, nd) => nd.procs.map fun (p, e) =>
     s!"P p{p} n{n} st={showPState e.st} out={showMsgs e.outbox} s={e.sent} r={e.recv} iss={(e.log.filter fun x => match x.ev with | .sent .. => true | .lsent .. => true | .tset .. => true | .tcancel .. => true | _ => false).length} issok=1 log={showList (e.log.map fun x => s!"{showF x.time}:{showPEv x.ev}")}"
-  let nodes := s.nodes.map fun (n, nd) => s!"Nd n{n} crashed={if nd.crashed then 1 else 0}"
+  let nodes := s.nodes.map fun (n, nd) => s!"Nd n{n} crashed={if nd.crashed then 1 else 0} api=1"
   let q := s.dumpEvents.map fun e => s!"{e.id}@{showF e.time}:n{e.src}>n{e.dst}:{showQData e.data}"
   procs ++ nodes ++ [s!"Net nmc={s.net.networkMessageCount} traffic={s.net.traffic} Q={showList q} procs={showList (s.procNodes.map fun (p, n) => s!"p{p}:n{n}")}"]
 
